@@ -59,7 +59,22 @@ def gen_cases(ctx):
     for case in c07.gen_cases(ctx):
         if tuple(case['pair']) == ('sync', 'sync') and case['idgen'] in ('sequential', 'randint12'):
             yield dict(part='notation', case=case)
+    # --- the concrete client backends (requests / httpx sync = synchronous half, httpx async / aiohttp = asynchronous half)
+    for kind in BK_KINDS:
+        for status in BK_STATUS:
+            for ct in range(len(BK_CTYPES)):
+                for body in BK_BODIES:
+                    for rfs in (True, False):
+                        for strict in (True, False):
+                            for dct in ((None, 'application/json-rpc') if (ct < 3 and body == 'valid' and status == 200) else (None,)):
+                                yield dict(part='backend', kind=kind, status=status, ct=ct, body=body, rfs=rfs, strict=strict, dct=dct)
 
+
+BK_KINDS = ('call', 'call-kw', 'notify', 'batch', 'batch-notify', 'send-headers', 'client-headers')
+BK_STATUS = (200, 201, 404, 500)
+BK_CTYPES = (None, 'application/json', 'application/json; charset=utf-8', 'application/json-rpc', 'application/jsonrequest',
+             'text/html', 'text/plain; charset=utf-8', 'APPLICATION/JSON', 'application/json;charset=utf-8', ' application/json')
+BK_BODIES = ('valid', 'empty', 'error', 'not-json', 'wrong-id', 'non-ascii', 'not-response')
 
 _SYS = {}
 
@@ -241,10 +256,154 @@ def run_reuse(case, rec):
     return repr(out[0])[:120]
 
 
+def bk_body(kind, doc, body):
+    """the HTTP body the scripted server answers with"""
+    elems = doc if isinstance(doc, list) else [doc]
+    calls = [e for e in elems if 'id' in e]
+    if body == 'empty':
+        return b''
+    if body == 'not-json':
+        return b'<html>gateway timeout</html>'
+    if body == 'not-response':
+        return b'{"status": "ok"}'
+
+    def answer(e):
+        if body == 'error':
+            return {'jsonrpc': '2.0', 'id': e['id'], 'error': {'code': 4321, 'message': 'app', 'data': [e['method']]}}
+        if body == 'wrong-id':
+            return {'jsonrpc': '2.0', 'id': e['id'] + 100, 'result': 'other'}
+        if body == 'non-ascii':
+            return {'jsonrpc': '2.0', 'id': e['id'], 'result': '\u00e9\u20ac-' + e['method']}
+        return {'jsonrpc': '2.0', 'id': e['id'], 'result': [e['method'], e.get('params')]}
+    if not calls:
+        # what a server that answers notifications anyway (or a proxy that always sends a body) returns
+        out = {'jsonrpc': '2.0', 'id': None, 'result': 'unexpected'}
+    elif isinstance(doc, list):
+        out = [answer(e) for e in calls]
+    else:
+        out = answer(doc)
+    return json.dumps(out, ensure_ascii=(body != 'non-ascii')).encode('utf-8')
+
+
+def bk_expected(case, n_calls):
+    """what the statements of C07 / C08 fix independently of the backend, or None where only agreement is required"""
+    status, ct, body = case['status'], BK_CTYPES[case['ct']], case['body']
+    if status >= 400 and case['rfs']:
+        return 'http-error'
+    if n_calls == 0:
+        return "ok None"            # notifications return nothing and raise nothing
+    media = (ct or '').split(';')[0]
+    if body != 'empty' and media not in ('application/json', 'application/json-rpc'):
+        return 'exc DeserializationError'
+    if media in ('application/json', 'application/json-rpc') and (ct or '') == (ct or '').strip():
+        if body == 'valid':
+            return 'value'
+        if body == 'error':
+            return 'exc JsonRpcError 4321'
+        if body == 'wrong-id' and case['strict']:
+            return 'exc IdentityError'
+        if body == 'not-response':
+            return 'exc DeserializationError'
+    return None
+
+
+def run_backend(case, rec):
+    import pjrpc
+    from pjrpc.common import Request
+    from mc.harness.backends import ASYNC, BACKENDS, make_backend_client
+    from mc.harness.client import run as drive
+    kind = case['kind']
+    out = {}
+    old_dct = pjrpc.common.DEFAULT_CONTENT_TYPE
+    if case['dct']:
+        pjrpc.common.set_default_content_type(case['dct'])
+    try:
+        for name in BACKENDS:
+            seen = []
+
+            def handler(req):
+                seen.append(req)
+                doc = json.loads(req['body'].decode('utf-8'))
+                ct = BK_CTYPES[case['ct']]
+                return case['status'], ([] if ct is None else [('Content-Type', ct)]), bk_body(kind, doc, case['body'])
+            user_headers = {'X-Trace': 't1'}
+            ckw = dict(raise_for_status=case['rfs'], strict=case['strict'])
+            if kind == 'client-headers':
+                ckw['request_args'] = dict(headers=user_headers)
+            client = make_backend_client(name, handler, **ckw)
+            if kind == 'call':
+                thunk = lambda: client.call('m', 1, 'x')     # noqa
+            elif kind == 'call-kw':
+                thunk = lambda: client.call('m', a=1)        # noqa
+            elif kind == 'notify':
+                thunk = lambda: client.notify('m', 1)        # noqa
+            elif kind == 'batch':
+                thunk = lambda: client.batch.add('m', 1).notify('n', 2).add('k', b=3).call()      # noqa
+            elif kind == 'batch-notify':
+                thunk = lambda: client.batch.notify('n', 2).notify('n', 3).call()                  # noqa
+            elif kind == 'send-headers':
+                def thunk():
+                    r = client.send(Request('m', [1], id=7), headers=user_headers)
+                    if hasattr(r, '__await__'):
+                        async def go():
+                            return (await r).result
+                        return go()
+                    return r.result
+            else:
+                thunk = lambda: client.call('m', 1)          # noqa
+            k, v = drive('async' if ASYNC[name] else 'sync', thunk)
+            rec.transitions += 1
+            if k == 'ok':
+                o = 'ok %r' % (v,)
+            elif type(v).__name__ in ('HTTPError', 'HTTPStatusError', 'ClientResponseError'):
+                o = 'http-error'
+            elif isinstance(v, pjrpc.exc.JsonRpcError):
+                o = 'exc JsonRpcError %s' % v.code
+            else:
+                o = 'exc %s' % type(v).__name__
+            wire_ = [(r['method'], r['headers'].get('content-type'), r['headers'].get('x-trace'), r['body']) for r in seen]
+            out[name] = (o, wire_)
+    finally:
+        pjrpc.common.set_default_content_type(old_dct)
+    base = out['requests']
+    want_ct = case['dct'] or 'application/json'
+    want_trace = 't1' if kind in ('send-headers', 'client-headers') else None
+    for name, (o, w) in out.items():
+        if len(w) != 1:
+            rec.violation('C11:backend:%d HTTP requests for one send (%s)' % (len(w), name), case, expected=1, observed=w)
+            return 'x'
+        if w[0][0] != 'POST' or w[0][1] != want_ct or w[0][2] != want_trace:
+            rec.violation('C11:backend:request not sent as POST with the default content type and the caller\'s headers (%s)' % name, case,
+                          expected=('POST', want_ct, want_trace), observed=w[0][:3])
+            return 'x'
+        if w != base[1]:
+            rec.violation('C11:backend:request documents differ between the requests backend and %s' % name, case, expected=base[1], observed=w)
+            return 'x'
+        if o != base[0]:
+            rec.violation('C11:backend:outcome differs between the requests backend and %s' % name, case, expected=base[0], observed=o)
+            return 'x'
+    doc = json.loads(base[1][0][3].decode('utf-8'))
+    n_calls = len([e for e in (doc if isinstance(doc, list) else [doc]) if 'id' in e])
+    want = bk_expected(case, n_calls)
+    got = base[0]
+    if want == 'value':
+        ok = got.startswith('ok ') and got != 'ok None'
+    elif want is not None:
+        ok = got == want
+    else:
+        ok = True
+    if not ok:
+        rec.violation('C11:backend:all backends agree on an outcome the statements exclude (%s expected)' % want, case, expected=want, observed=got)
+    rec.outcomes['backend: ' + (want or 'agreement only')] += 1
+    return got[:80]
+
+
 def run_case(case, rec):
     r = Recorder()
     p = case['part']
-    if p == 'text':
+    if p == 'backend':
+        obs = run_backend(case, r)
+    elif p == 'text':
         obs = run_text(case, r)
     elif p == 'failure':
         obs = run_failure(case, r)
@@ -278,7 +437,7 @@ def run(ctx):
     ctx.assumptions += ['KeyboardInterrupt (sync) and CancelledError (async) stand for the same BaseException outcome']
     ctx.run_cases('C11', lambda: gen_cases(ctx), run_case, recheck_every=2003)
     c = ctx.rec.counters
-    ctx.guard('all twin pairs exercised', all(c.get('part ' + p, 0) > 0 for p in ('text', 'failure', 'stack', 'retry', 'tracer', 'match', 'notation', 'reuse')), dict(c))
+    ctx.guard('all twin pairs exercised', all(c.get('part ' + p, 0) > 0 for p in ('text', 'failure', 'stack', 'retry', 'tracer', 'match', 'notation', 'reuse', 'backend')), dict(c))
 
 
 def replay(doc):
